@@ -169,6 +169,26 @@ func mkOperands(r *rand.Rand) []*apd.Decimal {
 		d.Negative = r.Intn(4) == 0
 		ops = append(ops, d)
 	}
+	// operands that take the code beyond its lookup tables (powers of ten above 10^128, digit counts above
+	// 128 bits): long coefficients with hundreds of fractional digits and a non-zero integer part, and
+	// exponents far apart - each with its own scale, so that concurrent calls need different powers
+	for i := 0; i < 8; i++ {
+		d := new(apd.Decimal)
+		frac := 129 + r.Intn(300)
+		d.SetString(digitsStr(frac + 1 + r.Intn(60)))
+		d.Exponent = int32(-frac)
+		d.Negative = r.Intn(4) == 0
+		ops = append(ops, d)
+	}
+	for i := 0; i < 4; i++ {
+		d := new(apd.Decimal)
+		d.SetString(digitsStr(1 + r.Intn(30)))
+		d.Exponent = int32(129 + r.Intn(400))
+		if r.Intn(2) == 0 {
+			d.Exponent = -d.Exponent - 40
+		}
+		ops = append(ops, d)
+	}
 	ops = append(ops, apd.New(0, 0), apd.New(1, 0), apd.New(10, -1), &apd.Decimal{Form: apd.Infinite}, &apd.Decimal{Form: apd.NaN})
 	return ops
 }
